@@ -428,8 +428,80 @@ func crashWeights(prop string, rng *rand.Rand) map[string]int {
 	return w
 }
 
+// generateColdChain (C04, 1 run in 6): a three-session chain built around segment metadata that has to survive the
+// hand-over recovery -> clean Close -> ordinary Open. Session 1 fills older segments with live-only puts of "cold"
+// keys, then writes delete records for some of them next to puts of other keys into a later segment B and rolls
+// the log over; the process dies. Session 2 recovers, closes cleanly, opens again (no recovery), overwrites B's own
+// puts (B becomes eligible for compaction), compacts; the process dies. Whatever is recovered then must not hold
+// the deleted keys: B's delete records may only have been dropped together with the older puts.
+func generateColdChain(rng *rand.Rand, prop string, cfg Cfg) *Plan {
+	nc, nu := 5+rng.Intn(4), 3+rng.Intn(4)
+	cfg.NKeys = nc + nu + 1
+	cfg.Family = []int{int(KFTiny), int(KFMixed)}[rng.Intn(2)]
+	cfg.MaxSeg = []uint32{1024, 2048}[rng.Intn(2)]
+	cfg.CompMinSeg = 1
+	cfg.CompFrag = []float32{0.1, 0.2, 0.3}[rng.Intn(3)]
+	cfg.ContAtEnd = true
+	p := &Plan{Property: prop, Engine: "crash", Cfg: cfg}
+	keys := GenKeys(rng, KeyFamily(cfg.Family), cfg.NKeys, cfg.HashSeed)
+	if len(keys) < cfg.NKeys {
+		nu = len(keys) - nc - 1
+		if nu < 1 {
+			return nil
+		}
+	}
+	p.Cfg.NKeys = len(keys)
+	p.SetKeys(keys)
+	hot := nc + nu
+	id := 0
+	put := func(k, size int) Op { id++; return Op{K: "put", Key: k, ID: id, Size: size} }
+	e1 := []Op{{K: "open"}}
+	for k := 0; k < nc; k++ {
+		e1 = append(e1, put(k, []int{100, 200}[rng.Intn(2)]))
+	}
+	// roll over so that what follows starts in a later segment
+	e1 = append(e1, put(hot, 200), put(hot, 200), put(hot, 200))
+	nd := 1 + rng.Intn(3)
+	for i, u := 0, 0; i < nd || u < nu; {
+		if i < nd && (u >= nu || rng.Intn(2) == 0) {
+			e1 = append(e1, Op{K: "del", Key: rng.Intn(nc)})
+			i++
+		} else {
+			e1 = append(e1, put(nc+u, []int{60, 100}[rng.Intn(2)]))
+			u++
+		}
+	}
+	for n := 3 + rng.Intn(4); n > 0; n-- {
+		e1 = append(e1, put(hot, 200))
+	}
+	if rng.Intn(2) == 0 {
+		e1 = append(e1, Op{K: "sync"})
+	}
+	e2 := []Op{{K: "open"}}
+	if rng.Intn(4) != 0 {
+		e2 = append(e2, Op{K: "close"}, Op{K: "open"})
+	}
+	for u := 0; u < nu; u++ {
+		if rng.Intn(5) != 0 {
+			e2 = append(e2, put(nc+u, []int{8, 16}[rng.Intn(2)]))
+		}
+	}
+	e2 = append(e2, Op{K: "compact"})
+	for n := rng.Intn(3); n > 0; n-- {
+		e2 = append(e2, []Op{{K: "count"}, {K: "items"}, put(hot, 60), {K: "compact"}}[rng.Intn(4)])
+	}
+	e3 := []Op{{K: "open"}, {K: "count"}, {K: "items"}}
+	p.Epochs = [][]Op{e1, e2, e3}
+	return p
+}
+
 func (crashEngine) Generate(rng *rand.Rand, prop string, thorough bool) *Plan {
 	cfg := GenCfg(rng)
+	if prop == "C04" && rng.Intn(6) == 0 {
+		if p := generateColdChain(rng, prop, cfg); p != nil {
+			return p
+		}
+	}
 	cfg.NKeys = []int{2, 3, 5, 8, 16, 33, 40}[rng.Intn(7)]
 	if cfg.Family == int(KFLengths) {
 		cfg.Family = int(KFTiny)
@@ -667,6 +739,18 @@ func (crashEngine) Execute(p *Plan) *RunResult {
 				cont = inOpen[rng.Intn(len(inOpen))]
 			case r < 6 && len(torn) > 0:
 				cont = torn[rng.Intn(len(torn))]
+			}
+		}
+		if p.Cfg.ContAtEnd && !last && !pinned && contPin == nil {
+			cont = crashPoint{k: len(j)}
+			have := false
+			for _, pt := range chosen {
+				if pt == cont {
+					have = true
+				}
+			}
+			if !have {
+				chosen = append(chosen, cont)
 			}
 		}
 		if contPin != nil && !pinned {
